@@ -11,7 +11,7 @@ from fractions import Fraction
 from ..gen.ledger import render_dsl
 from ..model import schwab as sm
 from ..probe import probe
-from ..util import rng_for, sha, iso, dstr, d as pdate
+from ..util import cap_viols, rng_for, sha, iso, dstr, d as pdate
 from . import ledger_core as lc
 
 PROP = "C16"
@@ -153,7 +153,7 @@ def run_hooked(desc):
                             "holdings_pre_sort_order_seen": base.get("orders", [{}])[-1].get("natural", [])[:8]})
     for site, orders in sets.items():
         cnt[f"distinct_presort_orders_{site}"] = len(orders)
-    return {"evaluations": cnt["inputs"] * 13, "nontrivial_hashes": hashes, "counters": cnt, "violations": viols[:20],
+    return {"evaluations": cnt["inputs"] * 13, "nontrivial_hashes": hashes, "counters": cnt, "violations": cap_viols(viols),
             "samples": samples, "sets": {}}
 
 
